@@ -42,32 +42,38 @@ func (u unsupportedErr) Error() string { return u.msg }
 
 // VC holds the verification condition of one function under contract.
 type VC struct {
-	eng        *Engine
-	top        *ssa.Function
-	topC       *Contract
-	out        []string
-	declared   map[string]bool
-	heapSort   map[string]string
-	obls       []*Obligation
-	ctr        int
-	strLits    map[string]string
-	typeTags   map[string]int
-	tagTypes   []types.Type
-	funcIDs    map[string]int
-	closures   map[string]*closureInfo
-	assumed    map[string]bool // trusted things relied upon
-	keyCount   map[string]int
-	specDecl   map[string]bool
-	structDecl map[string]bool
-	ifaceImpl  map[string]bool
-	inlineDep  int
-	paramVals  map[string]specVal // for model extraction
-	entry      *hstate
-	lemmaDone  map[string]bool
-	lemmaName  string
-	kindCtr    int
-	qf         int                // >0: quantifier-free candidate search with this length bound
-	notes      []string
+	eng           *Engine
+	top           *ssa.Function
+	topC          *Contract
+	out           []string
+	declared      map[string]bool
+	heapSort      map[string]string
+	obls          []*Obligation
+	ctr           int
+	strLits       map[string]string
+	typeTags      map[string]int
+	tagTypes      []types.Type
+	funcIDs       map[string]int
+	closures      map[string]*closureInfo
+	assumed       map[string]bool // trusted things relied upon
+	keyCount      map[string]int
+	specDecl      map[string]bool
+	structDecl    map[string]bool
+	ifaceImpl     map[string]bool
+	inlineDep     int
+	paramVals     map[string]specVal // for model extraction
+	entry         *hstate
+	lemmaDone     map[string]bool
+	lemmaName     string
+	kindCtr       int
+	ifaceConcrete map[string]ifaceInfo
+	qf            int // >0: quantifier-free candidate search with this length bound
+	notes         []string
+}
+
+type ifaceInfo struct {
+	typ types.Type
+	val Val
 }
 
 type closureInfo struct {
@@ -78,7 +84,7 @@ type closureInfo struct {
 func newVC(eng *Engine, fn *ssa.Function, c *Contract) *VC {
 	vc := &VC{eng: eng, top: fn, topC: c, declared: map[string]bool{}, heapSort: map[string]string{}, strLits: map[string]string{},
 		typeTags: map[string]int{}, funcIDs: map[string]int{}, closures: map[string]*closureInfo{}, assumed: map[string]bool{}, keyCount: map[string]int{},
-		lemmaDone: map[string]bool{}, specDecl: map[string]bool{}, structDecl: map[string]bool{}, ifaceImpl: map[string]bool{}, paramVals: map[string]specVal{}}
+		lemmaDone: map[string]bool{}, ifaceConcrete: map[string]ifaceInfo{}, specDecl: map[string]bool{}, structDecl: map[string]bool{}, ifaceImpl: map[string]bool{}, paramVals: map[string]specVal{}}
 	return vc
 }
 
@@ -441,7 +447,7 @@ func (vc *VC) lookup(st *hstate, name, sort string) string {
 	case hsBase:
 		t = fmt.Sprintf("%s@%d", name, st.id)
 		vc.emit(fmt.Sprintf("(declare-const %s %s)", t, sort))
-		vc.heapTypeAxiom(name, t)
+		vc.heapTypeAxiom(name, t, st)
 	case hsStore:
 		if st.name == name {
 			t = st.term
@@ -452,7 +458,7 @@ func (vc *VC) lookup(st *hstate, name, sort string) string {
 		if st.all || st.names[name] {
 			t = fmt.Sprintf("%s@%d", name, st.id)
 			vc.emit(fmt.Sprintf("(declare-const %s %s)", t, sort))
-			vc.heapTypeAxiom(name, t)
+			vc.heapTypeAxiom(name, t, st)
 		} else {
 			t = vc.lookup(st.parent, name, sort)
 		}
@@ -484,8 +490,8 @@ func (vc *VC) lookup(st *hstate, name, sort string) string {
 // heapTypeAxiom states that every entry of an unconstrained heap version is a well-typed value of the
 // heap's Go type (ranges of machine integers, well-formed slice headers). Needed for heap reads in
 // specifications; reads in code assume the same facts at each load.
-func (vc *VC) heapTypeAxiom(name, term string) {
-	if vc.qf > 0 {
+func (vc *VC) heapTypeAxiom(name, term string, st *hstate) {
+	if vc.qf > 0 || vc.topC == nil || !vc.topC.TypedHeap {
 		return
 	}
 	d, ok := vc.eng.heapDescs[name]
@@ -497,22 +503,39 @@ func (vc *VC) heapTypeAxiom(name, term string) {
 	if d.kind == "mapval" {
 		vt = d.t2
 	}
-	if _, isSl := vt.Underlying().(*types.Slice); !isSl || d.kind == "elem" {
+	if d.kind == "elem" || name == "alloc" {
 		return
+	}
+	switch vt.Underlying().(type) {
+	case *types.Slice:
+	case *types.Pointer, *types.Map:
+		// stored references are nil or allocated in this state
+		al := vc.lookup(st, "alloc", allocSort)
+		switch d.kind {
+		case "field", "ptr":
+			vc.emit(fmt.Sprintf("(assert (forall ((r Int)) (! (or (= (select %s r) 0) (select %s (root (select %s r)))) :pattern ((select %s r)))))", term, al, term, term))
+		}
+		return
+	default:
+		return
+	}
+	stx := st
+	if name == "alloc" {
+		stx = nil
 	}
 	switch d.kind {
 	case "field", "ptr":
-		f := vc.typeFacts(sx("select", term, "r"), d.t1, nil)
+		f := vc.typeFacts(sx("select", term, "r"), d.t1, stx)
 		if f != "true" {
 			vc.emit(fmt.Sprintf("(assert (forall ((r Int)) (! %s :pattern ((select %s r)))))", f, term))
 		}
 	case "elem":
 		f := vc.typeFacts(sx("select", sx("select", term, "a"), "i"), d.t1, nil)
 		if f != "true" {
-			vc.emit(fmt.Sprintf("(assert (forall ((a Int) (i Int)) (! %s :pattern ((select (select %s a) i)))))", f, term, ))
+			vc.emit(fmt.Sprintf("(assert (forall ((a Int) (i Int)) (! %s :pattern ((select (select %s a) i)))))", f, term))
 		}
 	case "mapval":
-		f := vc.typeFacts(sx("select", sx("select", term, "m"), "k"), d.t2, nil)
+		f := vc.typeFacts(sx("select", sx("select", term, "m"), "k"), d.t2, stx)
 		if f != "true" {
 			vc.emit(fmt.Sprintf("(assert (forall ((m Int) (k %s)) (! %s :pattern ((select (select %s m) k)))))", vc.sortOf(d.t1), f, term))
 		}
